@@ -437,10 +437,14 @@ type WireGot struct {
 func (w WireSent) String() string { return fmt.Sprintf("GW-SENT #%d %s", w.I, w.Dump) }
 func (w WireGot) String() string  { return fmt.Sprintf("APP-HOLDS #%d %s", w.I, w.Dump) }
 
-func inboundWireOracle(tr *mc.Trace) []h.Violation {
-	vs := generic(tr, "C05", true)
+func inboundWireOracle(prop string) func(tr *mc.Trace) []h.Violation {
+	return func(tr *mc.Trace) []h.Violation { return inboundWireJudge(prop, tr) }
+}
+
+func inboundWireJudge(prop string, tr *mc.Trace) []h.Violation {
+	vs := generic(tr, prop, true)
 	bad := func(class, format string, a ...interface{}) {
-		vs = append(vs, h.Violation{Class: "C05:" + class, Msg: fmt.Sprintf(format, a...)})
+		vs = append(vs, h.Violation{Class: prop + ":" + class, Msg: fmt.Sprintf(format, a...)})
 	}
 	var sent, got []string
 	acks := 0
@@ -474,7 +478,10 @@ func inboundWireOracle(tr *mc.Trace) []h.Violation {
 }
 
 func init() {
-	register("both", &h.Scenario{Name: "C05-fullstack-inbound-stop-and-wait-three-shapes", Prop: "C05", P: 1, F: 0, D: 1, Run: inboundWireRun(), Check: inboundWireOracle})
+	register("both", &h.Scenario{Name: "C05-fullstack-inbound-stop-and-wait-three-shapes", Prop: "C05", P: 1, F: 0, D: 1, Run: inboundWireRun(), Check: inboundWireOracle("C05")})
+	// C04's "delivered exactly once ... no accepted telegram is lost, however slowly the application
+	// reads" for telegrams of every shape a tunnel of the matching layer carries
+	register("both", &h.Scenario{Name: "C04-fullstack-inbound-stop-and-wait-three-shapes", Prop: "C04", P: 1, F: 0, D: 1, Run: inboundWireRun(), Check: inboundWireOracle("C04")})
 }
 
 // ---- C12: group events after a rejected one ----
@@ -553,4 +560,76 @@ func groupRejectOracle(tr *mc.Trace) []h.Violation {
 
 func init() {
 	register("both", &h.Scenario{Name: "C12-group-writes-after-a-rejected-one", Prop: "C12", P: 0, F: 0, D: -1, Run: groupRejectRun(), Check: groupRejectOracle})
+}
+
+// ---- inbound group telegrams that look alike ----
+
+// groupAlikeRun: four group writes from one device to one group address arrive through a group
+// tunnel: value 1; value 2 in a frame marked as a bus repetition; the same frame again; value 3 (the
+// repeat flag of each chosen by the environment). Each is acknowledged by the client, each targets a
+// group address with a group command: each becomes a group event, in that order - how much a
+// telegram resembles the one before is not a criterion.
+func groupAlikeRun() func() {
+	return func() {
+		sock := fakesock.New("udp")
+		NewGateway(sock, 7)
+		gt, err := knx.NewGroupTunnelOnSocket(sock, TCfg(100, 350, 100000000))
+		if err != nil {
+			mc.Log(Note("connect failed: " + err.Error()))
+			return
+		}
+		flags := mc.Choose(8, mc.Free) // bit i: telegram i+1 is marked as repeated
+		vals := []byte{1, 2, 2, 3}
+		done := mc.NewChan[int](1, "alike.done")
+		mc.GoEnv("app", func() {
+			for {
+				ev, ok := gt.Inbound().Recv2()
+				if !ok {
+					done.Send(1)
+					return
+				}
+				mc.Log(GroupRx{uint16(ev.Destination), hex.EncodeToString(ev.Data)})
+			}
+		})
+		for i, v := range vals {
+			c1 := cemi.Control1StdFrame | cemi.Control1NoRepeat
+			if i > 0 && flags&(1<<(i-1)) != 0 {
+				c1 = cemi.Control1StdFrame // repeat flag cleared: "this frame is a repetition"
+			}
+			m := &cemi.LDataInd{LData: cemi.LData{Control1: c1, Control2: cemi.Control2GroupAddr | cemi.Control2Hops(6),
+				Source: 0x1105, Destination: 0x0A03, Data: &cemi.AppData{Command: cemi.GroupValueWrite, Data: []byte{v}}}}
+			mc.Log(Injected{i, hex.EncodeToString([]byte{v})})
+			sock.Deliver(&knxnet.TunnelReq{Channel: 7, SeqNumber: uint8(i), Payload: m})
+			mc.Sleep(5 * ms)
+		}
+		mc.Sleep(20 * ms)
+		gt.Close()
+		done.Recv()
+	}
+}
+
+func groupAlikeOracle(prop string) func(tr *mc.Trace) []h.Violation {
+	return func(tr *mc.Trace) []h.Violation {
+		vs := generic(tr, prop, true)
+		var want, got []string
+		for _, e := range tr.Log {
+			switch x := e.V.(type) {
+			case Injected:
+				want = append(want, x.Hex)
+			case GroupRx:
+				got = append(got, x.Hex)
+			case Note:
+				vs = append(vs, h.Violation{Class: prop + ":setup", Msg: string(x)})
+			}
+		}
+		if tr.Reason == "main-returned" && fmt.Sprint(got) != fmt.Sprint(want) {
+			vs = append(vs, h.Violation{Class: prop + ":group-telegrams-that-look-alike", Msg: fmt.Sprintf("group writes 1.1.5 -> 1/2/3 with values %v were accepted from the gateway (some marked as bus repetitions); group events received: %v", want, got)})
+		}
+		return vs
+	}
+}
+
+func init() {
+	register("both", &h.Scenario{Name: "C12-inbound-group-writes-that-look-alike", Prop: "C12", P: 0, F: 0, D: -1, Run: groupAlikeRun(), Check: groupAlikeOracle("C12")})
+	register("both", &h.Scenario{Name: "C05-inbound-group-writes-that-look-alike", Prop: "C05", P: 0, F: 0, D: -1, Run: groupAlikeRun(), Check: groupAlikeOracle("C05")})
 }
